@@ -12,12 +12,18 @@
 #ifndef VERIF_VSCHED_HPP
 #define VERIF_VSCHED_HPP
 
+#include <atomic>
 #include <cstdint>
 #include <functional>
 #include <string>
 #include <vector>
 
 extern "C" void osmium_verif_sched_point(const char* tag);
+
+#ifndef VSCHED_ATOMIC_POINTS_HPP
+// (with engine/vsched/atomic_points.hpp force-included std::atomic is a wrapper with scheduling points; raw_atomic is the plain one)
+namespace vsched { template <class T> using raw_atomic = std::atomic<T>; }
+#endif
 
 namespace vsched {
 
